@@ -336,6 +336,14 @@ func GlobalsTable(repo string) (vars []GlVar, engineFields []string, fresh [][2]
 	// the engine struct and the allocation of the per-call state
 	ip := byName["interpreter"]
 	foundEngine := false
+	pkgFuncs := map[string]*ast.FuncDecl{}
+	for _, f := range ip.files {
+		for _, d := range f.Decls {
+			if fd, ok := d.(*ast.FuncDecl); ok && fd.Recv == nil {
+				pkgFuncs[fd.Name.Name] = fd
+			}
+		}
+	}
 	for _, f := range ip.files {
 		for _, d := range f.Decls {
 			switch x := d.(type) {
@@ -368,10 +376,10 @@ func GlobalsTable(repo string) (vars []GlVar, engineFields []string, fresh [][2]
 				}
 				switch {
 				case x.Recv != nil && x.Name.Name == "Execute" && glRecvIs(x, "engine"):
-					ok := glFirstAssignIsFresh(x.Body, "execOpts") && !glUsesReceiver(x)
+					ok := glFreshVia(x.Body, "execOpts", pkgFuncs) && !glUsesReceiver(x)
 					fresh = append(fresh, [2]string{"Execute: opts := &execOpts{} and the receiver is not used", boolStr(ok)})
 				case x.Recv == nil && x.Name.Name == "createThread":
-					ok := glFirstAssignIsFresh(x.Body, "thread")
+					ok := glFreshVia(x.Body, "thread", pkgFuncs)
 					fresh = append(fresh, [2]string{"createThread: th := &thread{...}", boolStr(ok)})
 				}
 			}
@@ -422,6 +430,56 @@ func glUsesReceiver(fd *ast.FuncDecl) bool {
 }
 
 // first statement is `x := &T{...}`
+// glFreshVia: the body starts from a fresh &tn{...}, either directly (its first statement) or through a call to a function of
+// the same package (no receiver) whose first statement is that allocation and whose every return hands that variable back.
+func glFreshVia(b *ast.BlockStmt, tn string, funcs map[string]*ast.FuncDecl) bool {
+	if glFirstAssignIsFresh(b, tn) {
+		return true
+	}
+	ok := false
+	ast.Inspect(b, func(n ast.Node) bool {
+		c, is := n.(*ast.CallExpr)
+		if !is {
+			return true
+		}
+		id, is := c.Fun.(*ast.Ident)
+		if !is {
+			return true
+		}
+		fd := funcs[id.Name]
+		if fd == nil || fd.Recv != nil || fd.Body == nil || !glFirstAssignIsFresh(fd.Body, tn) {
+			return true
+		}
+		v, is := fd.Body.List[0].(*ast.AssignStmt).Lhs[0].(*ast.Ident)
+		if !is {
+			return true
+		}
+		all, any := true, false
+		ast.Inspect(fd.Body, func(m ast.Node) bool {
+			if _, lit := m.(*ast.FuncLit); lit {
+				return false
+			}
+			if r, isr := m.(*ast.ReturnStmt); isr {
+				any = true
+				rid, isid := ast.Expr(nil), false
+				if len(r.Results) > 0 {
+					rid = r.Results[0]
+					_, isid = rid.(*ast.Ident)
+				}
+				if !isid || rid.(*ast.Ident).Name != v.Name {
+					all = false
+				}
+			}
+			return true
+		})
+		if all && any {
+			ok = true
+		}
+		return true
+	})
+	return ok
+}
+
 func glFirstAssignIsFresh(b *ast.BlockStmt, tn string) bool {
 	if len(b.List) == 0 {
 		return false
